@@ -145,7 +145,7 @@ static void emit_state(Case& c, const char* kind, int ret, const std::string& ex
     long cs = (long)(e->pbegincodehash - e->script.begin());
     int tcei = e->tce ? e->tce->m_i : -1;
     int opc = 0; memcpy(&opc, &e->opcode, sizeof(opc) < sizeof(e->opcode) ? sizeof(opc) : sizeof(e->opcode)); // may be uninitialised before the first op
-    fprintf(EV, "%s %d %d %s %d %d %zu %zu %ld %ld %d %d %u %lld %d %d %s %d %s %s %s\n",
+    fprintf(EV, "%s %d %d %s %d %d %zu %zu %ld %ld %d %d %u %lld %d %d %s %d %s %s %s %u\n",
         kind, ret, (int)*e->serror, exc_class(exc).c_str(), e->nOpCount, e->done ? 1 : 0,
         e->vfExec.size(), ff, pc, cs, e->curr_op_seq, opc,
         (unsigned)e->execdata.m_codeseparator_pos, (long long)(e->execdata.m_validation_weight_left_init ? e->execdata.m_validation_weight_left : 0),
@@ -153,7 +153,7 @@ static void emit_state(Case& c, const char* kind, int ret, const std::string& ex
         e->successor_script.size() ? HexStr(e->successor_script).c_str() : "-",
         (int)e->sigversion,
         e->execdata.m_tapleaf_hash_init ? HexStr(e->execdata.m_tapleaf_hash).c_str() : "-",
-        vecstr(e->stack).c_str(), vecstr(e->altstack).c_str());
+        vecstr(e->stack).c_str(), vecstr(e->altstack).c_str(), (unsigned)e->opcode_pos);
     fflush(EV);
 }
 
@@ -405,7 +405,7 @@ int main(int argc, char** argv) {
                 c->setup = ok;
                 emit_state(*c, "U", ok ? 1 : 0, "");
             }
-            else if ((cmd == "S" || cmd == "CS" || cmd == "R" || cmd == "C" || cmd == "X" || cmd == "D") && !c->setup) {
+            else if ((cmd == "S" || cmd == "CS" || cmd == "CSH" || cmd == "R" || cmd == "C" || cmd == "X" || cmd == "D") && !c->setup) {
                 // btcdeb exits when setup_environment() fails: nothing may be executed on such an environment
                 fprintf(EV, "NOSETUP %s\n", cmd.c_str()); fflush(EV);
             }
@@ -417,6 +417,20 @@ int main(int argc, char** argv) {
                 int guard = 0;
                 while (!c->inst->env->done && guard++ < 200000) {
                     bool r = c->inst->step();
+                    emit_state(*c, "S", r ? 1 : 0, c->inst->exception_string);
+                    if (!r) break;
+                }
+                fprintf(EV, "CSEND\n"); fflush(EV);
+            }
+            else if (cmd == "CSH") {   // like CS, but every step is taken, taken back and taken again ("hovering"); the event is the re-done step
+                int guard = 0;
+                while (!c->inst->env->done && guard++ < 200000) {
+                    bool r = c->inst->step();
+                    if (r && !c->inst->env->done && c->inst->rewind()) {
+                        g_sighashes.clear(); drain_capture();      // (digests and output of the step that was taken back)
+                        fprintf(EV, "HV\n"); fflush(EV);
+                        r = c->inst->step();
+                    }
                     emit_state(*c, "S", r ? 1 : 0, c->inst->exception_string);
                     if (!r) break;
                 }
